@@ -141,19 +141,40 @@ Fixpoint obs_rings (rs : rrstate) (ids : list nat) : list (Z * list Z * Z * Z) *
 Definition hash_robs (os : list (Z * list Z * Z * Z)) : Z :=
   fold_left (fun h o => let '(len, sq, n, p) := o in mix (mix (mix_list (mix h len) sq) n) p) os 0.
 
-Fixpoint rrun_obs (rs : rrstate) (ops : list rop) : list (ret * Z) * rfinal * rrstate :=
+(* A zero Ring that no operation has named as an argument yet is not observed: observing it
+   would initialise it, and the lazy initialisation inside Prev / Move / Link / Len / Do is part
+   of what is compared. [fresh] = the nodes created by RZero and not named since (the harness
+   applies the same syntactic rule on handle indices). *)
+Definition opt_list (p : ptr) : list nat := match p with Some i => [i] | None => [] end.
+
+Definition rop_args (t : list nat) (op : rop) : list nat :=
+  match op with
+  | RZero _ | RNew _ _ => []
+  | RNext r | RPrev r | RLen r | RDo r | RMove r _ | RUnlink r _ => opt_list (rhnd t r)
+  | RLink r s => opt_list (rhnd t r) ++ opt_list (rhnd t s)
+  end.
+
+Definition fresh_after (fresh : list nat) (t : list nat) (op : rop) (o : rout) : list nat :=
+  match op, o with
+  | RZero _, ROPtr (Some i) => i :: fresh
+  | _, _ => filter (fun i => negb (existsb (Nat.eqb i) (rop_args t op))) fresh
+  end.
+
+Fixpoint rrun_obs (rs : rrstate) (fresh : list nat) (ops : list rop) : list (ret * Z) * rrstate :=
   match ops with
-  | [] => ([], [], rs)
+  | [] => ([], rs)
   | op :: ops' =>
       let (o, rs1) := rstep op rs in
       let r := rret rs1 o in
-      let (os, rs2) := obs_rings rs1 (rhs rs1) in
-      let here := (r, hash_robs os) in
-      match ops' with
-      | [] => ([here], map (fun o => let '(len, sq, _, _) := o in (len, sq)) os, rs2)
-      | _ => let '(rest, fin, rs3) := rrun_obs rs2 ops' in (here :: rest, fin, rs3)
-      end
+      let fresh1 := fresh_after fresh (rhs rs1) op o in
+      let (os, rs2) := obs_rings rs1 (filter (fun i => negb (existsb (Nat.eqb i) fresh1)) (rhs rs1)) in
+      let (rest, rs3) := rrun_obs rs2 fresh1 ops' in
+      ((r, hash_robs os) :: rest, rs3)
   end.
+
+(* at the end every handle is observed, also the zero Rings that were never used *)
+Definition rfinal_of (rs : rrstate) : rfinal :=
+  map (fun o => let '(len, sq, _, _) := o in (len, sq)) (fst (obs_rings rs (rhs rs))).
 
 Definition rfin_eqb (a b : Z * list Z) : bool := Z.eqb (fst a) (fst b) && list_eqb Z.eqb (snd a) (snd b).
 
@@ -164,6 +185,6 @@ Definition check_case (c : case) : bool :=
       list_eqb obs_eqb os obs &&
       match lfinal_of rs with Some f => list_eqb lfin_eqb f final | None => false end
   | CRing ops obs final =>
-      let '(os, fin, _) := rrun_obs init_rrstate ops in
-      list_eqb obs_eqb os obs && list_eqb rfin_eqb fin final
+      let (os, rs) := rrun_obs init_rrstate [] ops in
+      list_eqb obs_eqb os obs && list_eqb rfin_eqb (rfinal_of rs) final
   end.
